@@ -2,7 +2,7 @@
     Property theorems only, about the per-window methods REGENERATED from the source (Gen/GenScalars.v;
     translation validated by correspondence K5).  [eql] = elementwise equality of rationals. *)
 From Coq Require Import QArith Qabs List Bool String.
-From IV Require Import QL Dist Ecdf QListFacts GenUtils GenScalars RatLS C16_compose C03_proofs C02_proofs C04_proofs C01_proofs C09_proofs RatLS_proofs Affine Affine_debiasers Driver Driver_rel ApplyLocation_units.
+From IV Require Import QL Dist Ecdf QListFacts GenUtils GenScalars RatLS C16_compose C03_proofs C02_proofs C04_proofs C01_proofs C09_proofs RatLS_proofs Affine Affine_debiasers Driver Driver_rel ApplyLocation_units SDM SDM_proofs.
 Import ListNotations.
 Open Scope Q_scope.
 
@@ -125,3 +125,10 @@ Theorem C02_linear_scaling_apply_location : forall c L S dobs dhist dfut obs his
                                              (Driver.driver_rw Q L S dobs dhist dfut obs hist (map (fun x => x + c) fut) (ApplyLocation_units.W_ls "additive")).
 Proof. exact ApplyLocation_units.ls_trend_preserved_through_windows. Qed.
 Print Assumptions C02_linear_scaling_apply_location.
+
+(** ScaledDistributionMapping (absolute; hand model Model/SDM.v, tied to the code by correspondence K15), for any
+    distribution: a constant added to cm_future changes every debiased value by exactly that constant *)
+Theorem C02_sdm_absolute_trend_preserving : forall (P : Type) (D : dist P) (scale_of : P -> Q) c obs hist fut, fut <> [] ->
+  Forall2 (fun u v => v == u + c) (sdm_absolute D scale_of obs hist fut) (sdm_absolute D scale_of obs hist (map (fun x => x + c) fut)).
+Proof. exact @sdm_absolute_trend_preserving. Qed.
+Print Assumptions C02_sdm_absolute_trend_preserving.
